@@ -376,6 +376,30 @@ Example regex_hosts_former_witness :
      = Some (mkroute (Some [49]%N) 0%Z false).
 Proof. split; vm_compute; reflexivity. Qed.
 
+(** ** [Router::has_hostname] (asked before a hostname's tags are dropped)
+    For a plain, non wild-card name the answer is exactly "the configuration
+    still holds something for that name": a pre / post rule whose domain
+    matches it, or tree rules stored under that very name — after any plain
+    history.  The wild-card leaf is NOT consulted (exact mode). *)
+Theorem has_hostname_reflects_configuration :
+  forall re_ok re_match hist h,
+    plain_history hist -> good_key h -> label_of h <> [STAR] ->
+    has_hostname re_match (run re_ok re_match hist) h
+    = orb (orb (flat_any re_match (s_pre (config re_ok hist)) h)
+               (negb (is_nil (s_tree (config re_ok hist) h))))
+          (flat_any re_match (s_post (config re_ok hist)) h).
+Proof. exact has_hostname_history. Qed.
+
+(** stated for wild-card names it is false: the immutable lookup reads "*" as
+    a literal label, so the name a frontend was added under is not "had".
+    No observable consequence today (tags are looked up by the request's own
+    hostname, never by a wild-card name); recorded, not asserted. *)
+Theorem has_hostname_wildcard_name_refuted :
+  exists hist h,
+    plain_history hist /\ good_key h /\ s_tree (config (fun _ => true) hist) h <> [] /\
+    has_hostname (fun _ _ => false) (run (fun _ => true) (fun _ _ => false) hist) h = false.
+Proof. exact has_hostname_wildcard_refuted_lemma. Qed.
+
 (** ** non-vacuity *)
 Example selection_nonvacuous :
   let eq := (mkprule PEquals [47; 97]%N, None, mkroute (Some [1%N]) 0%Z false) in
@@ -489,3 +513,16 @@ Example accept_nonvacuous :
   accept (fun _ => false) (ksteps w_w_re_a_com) = false /\
   accept ok (ksteps w_star_a_com) = true.
 Proof. repeat split; vm_compute; reflexivity. Qed.
+
+(** [has_hostname]: true through the tree, through a post rule only, and false
+    again once the last frontend of the name is removed *)
+Example has_hostname_nonvacuous :
+  let f1 := w_front w_x_a_com [47]%N [48]%N in
+  let fp := mkfront Post w_x_a_com 0%Z [47]%N None (Some [49]%N) None None in
+  let hn := fun hist => has_hostname (fun _ _ => false) (run (fun _ => true) (fun _ _ => false) hist) w_x_a_com in
+  plain_history [OAdd f1; OAdd fp; ODel f1; ODel fp] /\
+  hn [OAdd f1] = true /\ hn [OAdd f1; OAdd fp; ODel f1] = true /\ hn [OAdd f1; OAdd fp; ODel f1; ODel fp] = false /\
+  hn [OAdd (w_front w_star_a_com [47]%N [48]%N)] = false.
+Proof.
+  cbv zeta. split; [repeat constructor; cbn; discriminate|]. repeat split; vm_compute; reflexivity.
+Qed.
